@@ -1,20 +1,21 @@
 package main
 
 import (
-	"context"
 	"fmt"
 	"os"
 	"path/filepath"
 	"testing"
 )
 
-func TestSolversDirect(t *testing.T) {
-	files, _ := filepath.Glob("/verif/.work/func/*confined-1*.smt2")
+func TestPortfolioGround(t *testing.T) {
+	files, _ := filepath.Glob("/verif/.work/func/*no-newline.ground.smt2")
 	if len(files) == 0 {
 		t.Skip()
 	}
-	for _, sp := range solvers {
-		r := runSolver(context.Background(), sp, files[0], 5)
-		fmt.Fprintf(os.Stderr, "%s -> %s %.3f %q\n", sp.Name, r.Result, r.Time, firstLines(r.Output, 2))
+	sem := make(chan struct{}, 16)
+	best, all, _ := portfolio(files[0], 10, sem, solvers)
+	fmt.Fprintf(os.Stderr, "best=%v\n", best)
+	for _, r := range all {
+		fmt.Fprintf(os.Stderr, "%s -> %s %.2f %q\n", r.Solver, r.Result, r.Time, firstLines(r.Output, 2))
 	}
 }
